@@ -52,6 +52,13 @@ impl Stats {
     }
     pub fn flush(self, r: &Report) {
         r.eval(self.evals);
+        let mut hist: BTreeMap<String, u64> = BTreeMap::new();
+        for (s, _) in &self.viols {
+            *hist.entry(s.clone()).or_insert(0) += 1;
+        }
+        for (s, n) in &hist {
+            r.counter(&format!("violation:{s}"), *n);
+        }
         for (k, v) in &self.outcomes {
             r.outcome_n(k, *v);
         }
